@@ -928,3 +928,14 @@ v("d51-twin-polars-drop", "C08", PM,
   "            res = res.drop([c for c in op.column_deletions])\n        res = res.rename(op.column_remapping)", expect="silent")
 v("d44-twin-leaf-copy-local", "C07", VR,
   "            head=self.head,\n            limit_was=self.limit_was,\n", "            head=self.head if self.head is not None else None,\n            limit_was=self.limit_was,\n", expect="silent")
+
+OS = "OrderedSet.py"
+v("d60-and-inherited", "C24", OS,
+  "    def __and__(self, other):\n        # order by self (the inherited operator iterates other)\n        assert not isinstance(other, str)  # treat string as atomic value, not iterable\n        other = set(other)\n        return OrderedSet([e for e in self if e in other])\n\n", "")
+v("d60-and-iterates-other", "C24", OS,
+  "        other = set(other)\n        return OrderedSet([e for e in self if e in other])\n", "        return OrderedSet([e for e in other if e in self])\n")
+v("d59-subset-on-raw-argument", "C24", OS,
+  "        assert not isinstance(other, str)  # treat string as atomic value, not iterable\n        other = set(other)\n        return all(e in other for e in self)\n\n    def __lt__",
+  "        return all(e in other for e in self)\n\n    def __lt__")
+v("d60-twin-and-via-helper", "C24", OS,
+  "        other = set(other)\n        return OrderedSet([e for e in self if e in other])\n", "        return ordered_intersect(self, other)\n", expect="silent")
